@@ -13,5 +13,9 @@ check = importlib.import_module("checks." + prop.lower())
 res = {}
 for s in sys.argv[3:]:
     _, out = runner.run_case(check, int(s), tier)
-    res[s] = [out.digest, sorted({v.clause for v in out.violations})]
+    # the verdict: the clauses a check would report as violations. Whether a LISTED finding shows in a given run may
+    # depend on the order of the records inside a packet, which follows str hashing (D7: the second processing of a
+    # duplicated QU query shifts an aggregated answer only when the answer groups come out in a certain order)
+    known = runner.load_known(prop)
+    res[s] = [out.digest, sorted({v.clause for v in out.violations if runner.match_known(v, known) is None})]
 print(json.dumps(res))
